@@ -34,6 +34,13 @@ int pg = %(pv)d;
 int parent_fn(int a) { return a * 3 + %(pv)d; }
 string parent_name() { return "parent%(pv)d"; }
 int parent_k() { return PK; }
+// virtual calls by index: the child overrides some of these, and the parent's own code must reach the overriding bodies
+int va() { return 1; }
+int vb() { return 2; }
+int vc() { return 3; }
+int vd() { return 4; }
+int ve() { return 5; }
+int vsum() { return va() * 10000 + vb() * 1000 + vc() * 100 + vd() * 10 + ve(); }
 string psw(string v) { switch (v) { case "x": return "px"; case "parent%(pv)d": return "self"; case "y": return "py"; } return "pdefault"; }
 '''
 PHEADER = '#define PK %(pk)d\n'
@@ -46,6 +53,7 @@ class Pt { int x; string s; }
 int cv = %(cv)d;
 '''
 CHILD_TAIL = '''
+OVERRIDES
 string sw(string v) {
   switch (v) {
   case "a": return "case-a";
@@ -61,7 +69,7 @@ mixed extra() {
   function g = function(int a) { return a * %(cv)d; };
   p->x = K + cv; p->s = parent_name();
   return ({ p->x, p->s, evaluate(f, 1), evaluate(g, 3), parent_fn(2), sw("a"), sw(KS), sw("a longer label %(cv)d"), sw("zz"), sw(0), cv, pg,
-            psw("x"), psw(parent_name()), psw("nope"), parent_k(), function_exists("parent_fn", this_object()), sizeof(functions(this_object())) });
+            psw("x"), psw(parent_name()), psw("nope"), parent_k(), vsum(), va(), vb(), vc(), vd(), ve(), function_exists("parent_fn", this_object()), sizeof(functions(this_object())) });
 }
 void fail_here() {
   int z;
@@ -80,7 +88,9 @@ def cases(draw):
     for _ in range(n):
         ops.append(draw(st.sampled_from(["run", "run", "run", "edit_src", "edit_inc", "edit_parent", "touch_src", "touch_inc", "touch_parent", "touch_simul", "edit_pinc", "edit_pinc", "touch_pinc"])))
     ops.append("run")
-    return dict(y=y, ops=ops, save_types=draw(st.booleans()))
+    # which of the parent's five virtual functions the child overrides (gaps matter: the function table of a loaded binary is re-sorted)
+    overrides = "".join(n for n in "abcde" if draw(st.booleans()))
+    return dict(y=y, ops=ops, save_types=draw(st.booleans()), overrides=overrides, scr=draw(st.integers(0, 10 ** 6)))
 
 
 class State:
@@ -99,7 +109,8 @@ class State:
 def sources(case, s):
     from . import c03
     files, names = c03.render_program(case["y"])
-    child = (CHILD_HEAD % dict(pragma="#pragma save_types" if case["save_types"] else "", cv=s.cv)) + files["r"] + (CHILD_TAIL % dict(cv=s.cv))
+    ov = "".join("int v%s() { return %d; }\n" % (n, 6 + i) for i, n in enumerate("abcde") if n in case.get("overrides", "ac"))
+    child = (CHILD_HEAD % dict(pragma="#pragma save_types" if case["save_types"] else "", cv=s.cv)) + files["r"] + (CHILD_TAIL % dict(cv=s.cv)).replace("OVERRIDES", ov)
     return {"t/c17c.c": child, "t/c17p.c": PARENT % dict(pv=s.pv), "t/c17.h": HEADER % dict(k=s.k), "t/c17p.h": PHEADER % dict(pk=s.pk)}, names
 
 
@@ -113,8 +124,22 @@ def put(workers, s, path, text=None):
     s.mt[path] = t
 
 
+SCR_NAMES = ["va", "vb", "vc", "vd", "ve", "vsum", "parent_fn", "parent_name", "parent_k", "psw", "sw", "extra", "fail_here", "run_args", "lk",
+             "v_base", "v_expanded", "v_ifchain", "v_global", "v_mixed", "h0", "h1", "create"]
+
+
+def scrambler(order_seed):
+    """an unrelated object that defines functions with the same names in a shuffled order and is loaded first: the shared strings of
+    the names then exist at addresses in that order, so a program loaded from its binary has to re-sort its function table"""
+    import random
+    names = list(SCR_NAMES)
+    random.Random(order_seed).shuffle(names)
+    return "".join("int %s() { return %d; }\n" % (n, i) for i, n in enumerate(names) if n != "create")
+
+
 def run_steps(names):
     steps = [["call", "/master", "set_policy", arg("handler"), arg("trace")], ["call", "/master", "set_policy", arg("save_binary"), arg(1)],
+             ["load", "t/c17scr.c"],
              ["filelog", "on"], ["load", "t/c17c.c"], ["filelog", "dump"], ["filelog", "off"],
              ["call", "/master", "verif_take_compile_errors"], ["progsum", "t/c17c"], ["progsum", "t/c17p"]]
     for vn, sp, ff in names:
@@ -126,12 +151,12 @@ def run_steps(names):
 
 def observe(res, n):
     out = []
-    for i in range(3, n):
+    for i in range(4, n):
         r = dict(res.step(i) or {})
         r.pop("i", None)
         if r.get("st") == "filelog":
             continue
-        if i == 6 and r.get("st") == "val":
+        if i == 7 and r.get("st") == "val":
             # compile-time diagnostics: warnings exist only where a compilation took place; errors must agree
             r = dict(st="val", v=[x for x in unjson(r["v"])[1] if "Warning" not in x])
         out.append(r)
@@ -140,7 +165,7 @@ def observe(res, n):
 
 def binary_use(res):
     """from the libc file-call log of the load: which of the two programs came from their binaries"""
-    fl = res.step(4, "filelog") or {"log": []}
+    fl = res.step(5, "filelog") or {"log": []}
     opened = [(f, p) for f, p in fl["log"] if "open" in f]
     used = {}
     for key, stem in (("c", "t/c17c"), ("p", "t/c17p")):
@@ -171,6 +196,9 @@ def evaluate_case(ctx, case):
             info = "history %r\nsave_types=%r cv=%d k=%d pv=%d" % (hist, case["save_types"], s.cv, s.k, s.pv)
             if op == "run":
                 t_run = s.tick()
+                nrun = sum(1 for h in hist if h == "run")
+                for ww in (w, ref):
+                    ww.write("t/c17scr.c", scrambler(case.get("scr", 0) * 101 + nrun))
                 before = {}
                 for key, p in (("c", "bin/t/c17c.b"), ("p", "bin/t/c17p.b")):
                     fp = os.path.join(w.mudlib, p)
@@ -207,7 +235,7 @@ def evaluate_case(ctx, case):
                         feats.add("recompiled:" + key)
                 # equivalence with the reference compile
                 a, b = observe(res, len(steps)), observe(rres, len(steps))
-                labels = ["load", "filelog off", "compile errors", "summary of child", "summary of parent"] + ["results"] * (len(steps) - 13) + ["extra()", "errors so far", "fail_here()", "reported error"]
+                labels = ["load", "filelog off", "compile errors", "summary of child", "summary of parent"] + ["results"] * (len(steps) - 14) + ["extra()", "errors so far", "fail_here()", "reported error"]
                 for j, (x, y_) in enumerate(zip(a, b)):
                     if x != y_:
                         d = {k: (x.get(k), y_.get(k)) for k in set(x) | set(y_) if x.get(k) != y_.get(k)}
